@@ -96,6 +96,13 @@ func (evt *catchEvent) run(ctx context.Context, sender tracing.ISenderHandle) {
 
 func (evt *catchEvent) ConsumeEvent(ev event.IEvent) (result event.ConsumptionResult, err error) {
 	verifAt("catch.consume")
+	// Nothing is listening here: the event is dropped. The run loop (which
+	// would drop it as well) only exists once a token has reached the node,
+	// so queueing the event could block the caller for ever.
+	if !evt.activated.Load() {
+		result = event.Consumed
+		return
+	}
 	evt.mch <- processEventMessage{event: ev}
 	result = event.Consumed
 	return
